@@ -7,6 +7,7 @@
 package actionlint
 
 //@ spec rematch(r: ref, s: string): bool
+//@ spec recompile(p: string): ref
 //@ spec exitcode(e: ref): int
 //@ spec globmatch(p: string, path: string): bool
 //@ spec ipmatch(pats: IgnorePatterns, e: *Error): bool
@@ -20,6 +21,15 @@ package actionlint
 //@   ensures result == ipmatch(pats, err)
 //@   loop "range pats":
 //@     invariant forall jj :: 0 <= jj && jj <= range_i ==> !rematch(pats[jj], err.Message)
+
+// the command line patterns are compiled one by one, in order: the filter of a run is exactly the
+// list of expressions the user gave (recompile is the deterministic result of regexp.Compile)
+//@ func NewLinter
+//@   props C15
+//@   at_return result0 != nil ==> len(result0.ignorePats) == len(opts.IgnorePatterns) && (forall j :: 0 <= j && j < len(opts.IgnorePatterns) ==> result0.ignorePats[j] == recompile(opts.IgnorePatterns[j]))
+//@   loop "range opts.IgnorePatterns":
+//@     invariant len(ignore) == range_i + 1 && range_i + 1 <= len(opts.IgnorePatterns)
+//@     invariant forall j :: 0 <= j && j <= range_i ==> ignore[j] == recompile(opts.IgnorePatterns[j])
 
 // a diagnostic is kept iff neither a command line pattern nor a pattern of an applicable path
 // configuration matches its message; diagnostics are appended in their original order
